@@ -569,9 +569,12 @@ impl<TokenIter: Iterator<Item = Result<Token>>> Parser<TokenIter> {
                                         .into()
                                 }
                                 keyword => {
-                                    if let Some(transformer) =
-                                        syntax_env.get(&first.expect_symbol()?)
-                                    {
+                                    // clone the transformer: the expansion may itself contain a
+                                    // define-syntax, which needs to borrow the syntax table mutably
+                                    let transformer = syntax_env
+                                        .get(&first.expect_symbol()?)
+                                        .map(|transformer| (*transformer).clone());
+                                    if let Some(transformer) = transformer {
                                         let remained = DatumBody::Pair(pair).locate(location);
                                         let expanded_datum =
                                             transformer.transform(keyword, remained)?;
